@@ -577,6 +577,19 @@ def gen_opt(seed=0):
         add(name, mod(name, [("a", "input ", lg(W, True)), ("b", "input ", lg(W, True))] + [(f"y{k}", "output", lg(2 * W)) for k in range(7)],
                       f"    assign y0 = ~a[1];\n    assign y1 = -a[2:1];\n    assign y2 = a[1] + b;\n    assign y3 = a[{W - 1}:{W - 2}] ^ b;\n"
                       f"    assign y4 = if b[0] ? a[{W - 1}:{W - 2}] : b;\n    assign y5 = a[{W - 1}:{W - 2}] <: b;\n    assign y6 = a[{W - 1}:{W - 2}] >>> 1;"))
+    for W in (8, 20):
+        # a chain input rewritten inside the span of a base write + guarded override (version split must see the
+        # value the base write saw), in several orders
+        for k, body in enumerate([
+            "        t = a;\n        x = t;\n        t = b;\n        y = t;\n        if c {\n            x = d;\n        }",
+            "        t = a;\n        x = t + 1;\n        if c {\n            x = d;\n        }\n        t = b;\n        y = t ^ x;",
+            "        t = a;\n        x = t;\n        y = t;\n        t = t + b;\n        if c {\n            x = t;\n        } else if d[0] {\n            y = t;\n        }\n        t = d;",
+            "        t = a;\n        x = ~t;\n        t = b;\n        if c {\n            x[3:0] = t[3:0];\n        }\n        y = x;\n        t = a & b;",
+        ]):
+            name = f"O_vsrw{k}_{W}"
+            add(name, mod(name, [("a", "input ", lg(W)), ("b", "input ", lg(W)), ("c", "input ", "logic"), ("d", "input ", lg(W)),
+                                 ("x", "output", lg(W)), ("y", "output", lg(W)), ("z", "output", lg(W))],
+                          f"    var t: logic<{W}>;\n    always_comb {{\n" + body + "\n    }\n    assign z = t;"))
     name = "O_dup"
     add(name, mod(name, [("a", "input ", lg(6)), ("b", "input ", lg(6)), ("p", "output", lg(6)), ("q", "output", lg(6)),
                          ("r", "output", lg(6))],
